@@ -130,8 +130,88 @@ def one(kind, sername, beh, is_async, rp):
     return dict(ev="inv", kind=kind, ser=sername, beh=beh, isAsync=bool(is_async), rp=bool(rp), req=9001, obs=obs)
 
 
+class LifeSess(ApplicationSession):
+    def __init__(self, cfg, cbs):
+        ApplicationSession.__init__(self, cfg)
+        self.cbs = cbs
+
+    def onConnect(self):
+        self.cbs.append("onConnect")
+        return ApplicationSession.onConnect(self)
+
+    def onJoin(self, details):
+        self.cbs.append("onJoin")
+
+    def onLeave(self, details):
+        self.cbs.append("onLeave")
+        return ApplicationSession.onLeave(self, details)
+
+    def onDisconnect(self):
+        self.cbs.append("onDisconnect")
+        return ApplicationSession.onDisconnect(self)
+
+    def onUserError(self, fail, msg):
+        self.cbs.append("userError")
+
+
+def life(kind, sername, how):
+    """a joined session with a pending call on a real transport; then the session ends by `how`:
+    lost-clean / lost-unclean (transport goes away) or goodbye (router closes the session, then the transport closes)"""
+    obs = dict(esc="", cbs=[], evs=[], callDone="pending", later="", dropped=False)
+    try:
+        cbs = []
+        sess = LifeSess(ComponentConfig(realm="realm1"), cbs)
+        for evn in ("connect", "join", "leave", "disconnect"):
+            sess.on(evn, lambda *a, evn=evn, **kw: obs["evs"].append(evn))
+        if kind == "ws":
+            f = WampWebSocketClientFactory(lambda: sess, url="ws://localhost:9000/ws", serializers=[SER[sername]()])
+        else:
+            f = WampRawSocketClientFactory(lambda: sess, serializer=SER[sername]())
+        p = f.buildProtocol(None) if fw.NAME == "tx" else f()
+        t = fw.Transport()
+        fw.connect(p, t)
+        conn = RouterConn("websocket" if kind == "ws" else "rawsocket", p, t, ser_id=sername)
+        for _ in range(4):
+            for m in conn.poll():
+                if isinstance(m, message.Hello):
+                    conn.send(message.Welcome(77, {"broker": role.RoleBrokerFeatures(), "dealer": role.RoleDealerFeatures()}, realm="realm1"))
+            fw.settle()
+        fut = sess.call("com.myapp.slow", 1)
+        res = {}
+        txaio.add_callbacks(fut, lambda r: res.setdefault("ok", r), lambda e: res.setdefault("err", e))
+        fw.settle()
+        conn.poll()
+        if how == "goodbye":
+            conn.send(message.Goodbye("wamp.close.system_shutdown"))
+            fw.settle()
+            for _ in range(3):
+                conn.poll()
+                fw.settle()
+            obs["dropped"] = conn.client_dropped() or conn.ws_close_seen
+            conn.lose(clean=True)
+        else:
+            conn.lose(clean=(how == "lost-clean"))
+        fw.settle()
+        obs["cbs"] = list(cbs)
+        obs["callDone"] = "ok" if "ok" in res else ("err" if "err" in res else "pending")
+        try:
+            sess.call("com.myapp.slow", 2)
+            obs["later"] = "accepted"
+        except Exception as e:  # noqa
+            obs["later"] = type(e).__name__
+    except Exception as e:  # noqa
+        import traceback
+        obs["esc"] = type(e).__name__ + ":" + str(e)[:80] + "|" + traceback.format_exc()[-300:]
+    fw.reset()
+    return dict(ev="life", kind=kind, ser=sername, how=how, obs=obs)
+
+
 def main():
     inp = driver_in()
+    if inp.get("mode") == "life":
+        traces = [[life(k, s_, h)] for k in ("ws", "rs") for s_ in ("json", "msgpack", "cbor") for h in ("lost-clean", "lost-unclean", "goodbye")]
+        driver_out(dict(fw=fw.NAME, traces=traces, cases=len(traces)))
+        return
     traces = [[one(*c)] for c in inp["cases"]]
     driver_out(dict(fw=fw.NAME, traces=traces, cases=len(traces)))
 
